@@ -1,4 +1,5 @@
 import Irismod.Props.C13_Random
+import Irismod.Proofs.RandomMonitor
 open Irismod Irismod.Random Irismod.Props.C18
 #print axioms request_enqueued
 #print axioms request_due_height
@@ -30,3 +31,14 @@ open Irismod Irismod.Random Irismod.Props.C18
 #print axioms Irismod.Props.C13Random.queue_hygiene_reachable
 -- non-vacuity: three requests from two consumers (one consumer in two different blocks), all due at height 6, fulfilled by block 7 with values in [0,1); and the zero-time witness really panics
 #eval s!"nonvacuous {demoNonvacuous}"
+-- monitor soundness: everything `drv-random monitor C18` evaluates is `Spec.C18Mon.stepFails`; on the model's own observation it reports nothing but the known finding F-rnd-1 where its exclusion hypothesis is violated (Proofs/RandomMonitor.lean)
+#print axioms Irismod.Proofs.RandomMonitor.monitor_sound
+#print axioms Irismod.Proofs.RandomMonitor.line_inv
+#print axioms Irismod.Proofs.RandomMonitor.line_inv_reset
+#print axioms Irismod.Proofs.RandomMonitor.model_step_inv
+#print axioms Irismod.Proofs.RandomMonitor.post_tracks_model
+#print axioms Irismod.Proofs.RandomMonitor.lineInv_of_queueInv
+#print axioms Irismod.Proofs.RandomMonitor.lineInv_of_B
+#print axioms Irismod.Proofs.RandomMonitor.isDigits20_valueString
+-- non-vacuity of the monitor theorems: a history with every line kind (requests, genesis import, export / reimport, begin blocks, service end block, seed response, environment break, PRNG, zero-height restart) on which every carried state satisfies the invariant and the monitors of C18 / C13 / C12 are silent on the model's observations, ending in a zero-time begin block that yields exactly the F-rnd-1 failure
+#eval s!"nonvacuous {Irismod.Proofs.RandomMonitor.demoMonitor}"
